@@ -57,8 +57,13 @@ def shard(arg):
     n_bases = 0
     # countries whose BBANs have the same length (a mutant's BBAN text may be a valid BBAN there)
     siblings = [c for c in o.countries() if c != cc and o.bban_length(c) == o.bban_length(cc)]
-    for v in variants:
-        base = g.iban(cc, rng, v)
+    for v in variants + ["self-similar"] * (2 if tier == "quick" else 10) + ["near-self-similar"] * (12 if tier == "quick" else 150):
+        base = (g.self_similar_iban(cc, rng) if v == "self-similar" else
+                g.near_self_similar_iban(cc, rng) if v == "near-self-similar" else g.iban(cc, rng, v))
+        if base is None:
+            continue
+        if "self-similar" in v:
+            rec.classes["base-" + v] += 1
         if base in seen:
             continue
         seen.add(base)
@@ -103,4 +108,4 @@ def run(ctx):
                        "reference also rejects it (otherwise harness error).")
     ctx.assumptions = ["'same kind' = ASCII digit for digit, ASCII upper-case letter for letter"]
     ctx.pmap(shard, [(cc, ctx.seed, ctx.tier) for cc in oracle().countries()])
-    ctx.require_classes("replace-digit", "replace-letter", "swap-digit", "swap-letter")
+    ctx.require_classes("replace-digit", "replace-letter", "swap-digit", "swap-letter", "base-self-similar", "base-near-self-similar")
